@@ -535,10 +535,9 @@ public:
 private:
   void clean_()
   {
-    // Reorder
-    rangeComp_<T> comp;
-    std::sort(ranges_.begin(), ranges_.end(), comp);
-    // Remove empty intervals:
+    // Remove empty intervals first: an emptied range is [0,0[, and Range::operator<
+    // is not a strict weak ordering between [0,0[ and a range spanning 0, which
+    // std::sort requires (it crashed with more than 16 ranges).
     auto it = ranges_.begin();
     while (it != ranges_.end())
     {
@@ -552,6 +551,9 @@ private:
         ++it;
       }
     }
+    // Reorder (the remaining ranges are non-empty and pairwise disjoint)
+    rangeComp_<T> comp;
+    std::sort(ranges_.begin(), ranges_.end(), comp);
   }
 
 private:
